@@ -27,7 +27,7 @@ ASSUMPTIONS = [
     "only alphabet values are covered"]
 # measured floors on the unchanged tree (thorough alphabet) in brackets
 TOLERANCES = {"mie-scatmat": 2e-5,          # [3.7e-7]
-              "mie-field": 1e-4,            # [2.6e-6] backscatter, near field
+              "mie-field": 2e-5,            # [2.6e-6] backscatter, near field
               "mie-field-z": 1e-4,          # [1.6e-6]
               "ms-vs-mie-default": 2e-2,    # [see evidence] of the peak field
               "ms-vs-mie-tight": 3e-4,      # [8.8e-6]
@@ -60,7 +60,9 @@ LAY_PATTERNS = [[0.2, 0.35, 0.5, 0.65], [0.05, 0.3, 0.32, 0.9]]
 
 def _krs(x):
     ks = []
-    for v in (1.5 * x + 1, 3 * x + 10, 1e3, 1e4, 1e5):
+    # (16 pi, 1024 pi: whole numbers of half wavelengths, where j_0(kr) = 0)
+    for v in (1.5 * x + 1, 3 * x + 10, 16 * math.pi, 1e3, 1024 * math.pi,
+              1e4, 1e5):
         if v > x * 1.01 and all(abs(v - u) > 1e-9 for u in ks):
             ks.append(v)
     return ks
@@ -192,7 +194,14 @@ def _field_err(f, ref):
     angular pattern do not blow up the ratio)"""
     Ex, Ey, Ez = ref
     mag = np.sqrt(abs(Ex) ** 2 + abs(Ey) ** 2 + abs(Ez) ** 2)
-    scale = mag + 1e-3 * mag.max()
+    # (the largest magnitude of the point's own distance shell: a shell at
+    # kr = 1e5 is 1e-4 of the nearest one)
+    nsh = len(THETA) * len(PHI)
+    if mag.size % nsh == 0:
+        top = np.repeat(mag.reshape(-1, nsh).max(1), nsh)
+    else:
+        top = mag.max()
+    scale = mag + 1e-3 * top
     exy = np.maximum(abs(f[:, 0] - Ex), abs(f[:, 1] - Ey)) / scale
     ez = np.minimum(abs(f[:, 2] - Ez), abs(f[:, 2] + Ez)) / scale
     return float(exy.max()), float(ez.max())
